@@ -15,6 +15,7 @@ import (
 
 	"github.com/pion/datachannel"
 	"github.com/pion/logging"
+	"github.com/pion/webrtc/v4/internal/verifhook"
 	"github.com/pion/webrtc/v4/pkg/rtcerr"
 )
 
@@ -348,6 +349,7 @@ func (d *DataChannel) handleOpen(dc *datachannel.DataChannel, isRemote, isAlread
 	bufferedAmountLowThreshold := d.bufferedAmountLowThreshold
 	onBufferedAmountLow := d.onBufferedAmountLow
 	d.mu.Unlock()
+	verifhook.Yield("dc.open.beforeSet", d, 0)
 	d.setReadyState(DataChannelStateOpen)
 
 	// Fire the OnOpen handler immediately not using pion/datachannel
@@ -426,6 +428,7 @@ func (d *DataChannel) readLoop() {
 				)
 			}
 
+			verifhook.Yield("dc.readloop.beforeClosed", d, 0)
 			d.setReadyState(DataChannelStateClosed)
 			if !errors.Is(err, io.EOF) {
 				d.onError(err)
@@ -567,6 +570,7 @@ func (d *DataChannel) close(shouldGracefullyClose bool) error {
 	if d.ReadyState() == DataChannelStateClosed {
 		return nil
 	}
+	verifhook.Yield("dc.close.checked", d, 0)
 
 	d.setReadyState(DataChannelStateClosing)
 	if !haveSctpTransport {
@@ -769,5 +773,6 @@ func (d *DataChannel) collectStats(collector *statsReportCollector) {
 }
 
 func (d *DataChannel) setReadyState(r DataChannelState) {
+	verifhook.Yield("dc.state", d, int(r))
 	d.readyState.Store(r)
 }
